@@ -7,6 +7,7 @@ import (
 	"fmt"
 	"io"
 	"maps"
+	"math"
 	"slices"
 	"sort"
 
@@ -15,6 +16,7 @@ import (
 	regexanalysis "github.com/spq/pkappa2/internal/tools/regexAnalysis"
 	"github.com/spq/pkappa2/internal/tools/seekbufio"
 	"rsc.io/binaryregexp"
+	"rsc.io/binaryregexp/syntax"
 )
 
 type (
@@ -28,6 +30,8 @@ type (
 		childSubQuery  string
 		children       []regexVariant
 		isPrecondition bool
+		// the regex contains empty-width assertions
+		contextSensitive bool
 	}
 	regex struct {
 		occurence []occ
@@ -68,6 +72,8 @@ type (
 		variant map[string]int
 		// flags for this progress
 		flags progressVariantFlag
+		// the regex contains empty-width assertions
+		contextSensitive bool
 	}
 	variantResult struct {
 		variant   map[string]int
@@ -91,6 +97,31 @@ const (
 	C2S = query.DataRequirementSequenceFlagsDirectionClientToServer / query.DataRequirementSequenceFlagsDirection
 	S2C = query.DataRequirementSequenceFlagsDirectionServerToClient / query.DataRequirementSequenceFlagsDirection
 )
+
+// isContextSensitive reports whether the regex contains an empty-width assertion
+// (^, $, \A, \z, \b, \B). What such an assertion sees depends on the bytes surrounding
+// the match, the buffer must not be cut before running the regex: a literal prefix skip
+// lets ^ match at the prefix, a suffix cut or a fixed length window lets $ and \b match
+// at the cut, discarding the buffer after a miss lets ^$ match on a later retry.
+func isContextSensitive(expr string) (bool, error) {
+	re, err := syntax.Parse(expr, syntax.Perl)
+	if err != nil {
+		return false, err
+	}
+	stack := []*syntax.Regexp{re}
+	for len(stack) != 0 {
+		cur := stack[len(stack)-1]
+		stack = append(stack[:len(stack)-1], cur.Sub...)
+		switch cur.Op {
+		case syntax.OpBeginLine, syntax.OpEndLine, syntax.OpBeginText, syntax.OpEndText, syntax.OpWordBoundary, syntax.OpNoWordBoundary:
+			return true, nil
+		}
+	}
+	return false, nil
+}
+
+// noShortcuts is the accepted length that makes find take no shortcut
+var noShortcuts = regexanalysis.AcceptedLengths{MinLength: 0, MaxLength: math.MaxUint}
 
 func (dcc *dataConditionsContainer) add(cc *query.DataCondition, subQuery string, previousResults map[string]resultData) error {
 	if len(cc.Elements) == 0 {
@@ -284,6 +315,13 @@ func (dcc *dataConditionsContainer) finalize(r *Reader, queryPartIndex int, prev
 			if r.root.regex, err = binaryregexp.Compile(e.Regex); err != nil {
 				return nil, err
 			}
+			if r.root.contextSensitive, err = isContextSensitive(e.Regex); err != nil {
+				return nil, err
+			}
+			if r.root.contextSensitive {
+				r.root.acceptedLength = noShortcuts
+				continue
+			}
 			prefix, complete := r.root.regex.LiteralPrefix()
 			r.root.prefix = []byte(prefix)
 			if complete {
@@ -388,9 +426,15 @@ func (dcc *dataConditionsContainer) finalize(r *Reader, queryPartIndex int, prev
 				if root.regex, err = binaryregexp.Compile(regex); err != nil {
 					return nil, err
 				}
+				if root.contextSensitive, err = isContextSensitive(regex); err != nil {
+					return nil, err
+				}
 				prefix, complete := root.regex.LiteralPrefix()
 				root.prefix = []byte(prefix)
-				if complete {
+				if root.contextSensitive {
+					root.prefix = nil
+					root.acceptedLength = noShortcuts
+				} else if complete {
 					root.acceptedLength = regexanalysis.AcceptedLengths{
 						MinLength: uint(len(prefix)),
 						MaxLength: uint(len(prefix)),
@@ -567,7 +611,7 @@ func (p *progressVariant) find(buffers [2][]byte, dir uint8) []int {
 		}
 	}
 	res := p.regex.FindSubmatchIndex(buffer)
-	if res == nil {
+	if res == nil && !p.contextSensitive {
 		p.streamOffset[dir] = len(buffers[dir])
 	}
 	return res
@@ -594,6 +638,7 @@ func (ps *progressGroup) prepare(r *regex, pIdx int, e *query.DataConditionEleme
 			p.prefix = root.prefix
 			p.suffix = root.suffix
 			p.acceptedLength = root.acceptedLength
+			p.contextSensitive = root.contextSensitive
 			if root.isPrecondition {
 				p.flags = progressVariantFlagStatePrecondition
 			} else {
@@ -612,12 +657,13 @@ func (ps *progressGroup) prepare(r *regex, pIdx int, e *query.DataConditionEleme
 		}
 		for cIdx, c := range root.children {
 			np := progressVariant{
-				streamOffset:   p.streamOffset,
-				nSuccessful:    p.nSuccessful,
-				regex:          c.regex,
-				acceptedLength: c.acceptedLength,
-				prefix:         c.prefix,
-				suffix:         c.suffix,
+				streamOffset:     p.streamOffset,
+				nSuccessful:      p.nSuccessful,
+				regex:            c.regex,
+				acceptedLength:   c.acceptedLength,
+				prefix:           c.prefix,
+				suffix:           c.suffix,
+				contextSensitive: c.contextSensitive,
 				variant: map[string]int{
 					root.childSubQuery: cIdx,
 				},
@@ -709,6 +755,13 @@ func (ps *progressGroup) prepare(r *regex, pIdx int, e *query.DataConditionEleme
 	var err error
 	if p.regex, err = binaryregexp.Compile(expr); err != nil {
 		return p, err
+	}
+	if p.contextSensitive, err = isContextSensitive(expr); err != nil {
+		return nil, err
+	}
+	if p.contextSensitive {
+		p.prefix, p.suffix, p.acceptedLength = nil, nil, noShortcuts
+		return p, nil
 	}
 	prefix, complete := p.regex.LiteralPrefix()
 	root.prefix = []byte(prefix)
